@@ -5,6 +5,7 @@ import (
 	"errors"
 	"fmt"
 	"io"
+	"math"
 	"net/http"
 	"net/url"
 	"os"
@@ -251,12 +252,21 @@ func (s *Server) manifestPut(repoStr, arg string) http.HandlerFunc {
 				return
 			}
 		}
-		// read manifest
-		rLimit := io.LimitReader(r.Body, s.conf.API.Manifest.Limit)
+		// read manifest, one byte beyond the limit detects an oversized body of unknown length
+		readLimit := s.conf.API.Manifest.Limit
+		if readLimit < math.MaxInt64 {
+			readLimit++
+		}
+		rLimit := io.LimitReader(r.Body, readLimit)
 		mRaw, err := io.ReadAll(rLimit)
 		if err != nil {
 			w.WriteHeader(http.StatusInternalServerError)
 			s.log.Info("failed to read manifest", "repo", repoStr, "arg", arg, "err", err)
+			return
+		}
+		if int64(len(mRaw)) > s.conf.API.Manifest.Limit {
+			w.WriteHeader(http.StatusRequestEntityTooLarge)
+			_ = types.ErrRespJSON(w, types.ErrInfoManifestInvalid(fmt.Sprintf("manifest too large, limited to %d bytes", s.conf.API.Manifest.Limit)))
 			return
 		}
 		// verify / set digest
